@@ -60,6 +60,17 @@ Inductive dres := DDone (w : wst) (err : N) | DFuel.
 Section Udp.
   Variable Fixed : bool.
   Variables BufSz Low MaxRec Batch : N.   (* 512 KB, 256 KB, 65535, 32 *)
+  (* which write path flush() takes: None = the fallback loop over udpConn.Write (any io.Writer);
+     Some cap = udpConn is a *net.UDPConn: every pending packet is add()ed to the sendmmsg batch writer
+     (udp_batch.go), which holds at most cap messages — add() returns false beyond that and the caller ignores it,
+     i.e. the packet is dropped — and flush() then sends what the writer holds *)
+  Variable BwCap : option N.
+
+  Definition uflush_path (pend : list dgram) (w : wst) : bool * wst :=
+    match BwCap with
+    | None => uflush pend w
+    | Some cap => uflush (firstn (N.to_nat cap) pend) w
+    end.
 
   (* for buffered-processed >= 2 { packetLen := ...; illegal -> uflush(); return; incomplete -> break;
        append; processed += 2+packetLen; if len(pending) >= batchSize { uflush -> err => ReceiveError = err; return } } *)
@@ -70,13 +81,13 @@ Section Udp.
       match buf with
       | a :: b :: tl =>
         let n := de16 [a; b] in
-        if (n =? 0) || (MaxRec <? n) then UReturn (snd (uflush pend w)) false
+        if (n =? 0) || (MaxRec <? n) then UReturn (snd (uflush_path pend w)) false
         else if lenN tl <? n then UBreak buf pend w
         else
           let pend' := pend ++ [firstn (N.to_nat n) tl] in
           let buf' := skipn (N.to_nat n) tl in
           if Batch <=? lenN pend' then
-            match uflush pend' w with
+            match uflush_path pend' w with
             | (true, w') => UReturn w' true
             | (false, w') => unpack f buf' [] w'
             end
@@ -103,7 +114,7 @@ Section Udp.
     let '(buf1, t1, err1, ended) := x in
     if ended && is_nil buf1 then
       (* if buffered == 0 { uflush -> flushErr && ReceiveError == nil => ReceiveError = flushErr; break } *)
-      let '(fe, w') := uflush pend w in
+      let '(fe, w') := uflush_path pend w in
       OStop w' (if fe && (err1 =? 0) then 2 else err1)
     else
       match unpack (S (length buf1)) buf1 pend w with
@@ -114,7 +125,7 @@ Section Udp.
         (* if len(pendingPackets) > 0 && processed > 0 { uflush -> err => ReceiveError = err; return } *)
         let '(fe, w'', pend'') :=
           if negb (is_nil pend') && (0 <? processed)%nat
-          then let '(fe, w2) := uflush pend' w' in (fe, w2, [])
+          then let '(fe, w2) := uflush_path pend' w' in (fe, w2, [])
           else (false, w', pend') in
         if fe then OStop w'' 2
         else if Fixed && ended then
